@@ -46,6 +46,10 @@ fn seal_keys(
         .as_ref()
         .split_last_chunk::<16>()
         .ok_or(PasetoError::CryptoError)?;
+    #[cfg(paseto_rs_verif)]
+    let verif_iv = paseto_core::verif::iv(*n);
+    #[cfg(paseto_rs_verif)]
+    let n = &verif_iv;
 
     let mut ak = digest::Context::new(&SHA384);
     ak.update(b"\x02k3.seal.");
